@@ -40,6 +40,10 @@ def run(ctx):
     # for this check the parser entry points are request validators too
     saved = atomic.VALIDATOR_RE
     from . import c12
+    from .. import effects as _effects
+    saved_exc = set(_effects.USER_EXC)
+    # in the raw path a RuntimeError that depends on the new text ("could not find node after reparse") is a rejection of the request too
+    _effects.USER_EXC.add('RuntimeError')
     try:
         extra = re.compile(saved.pattern[:-2] + r'|fromsrc|_code_as_lines)$')
         atomic.VALIDATOR_RE = extra
@@ -91,6 +95,8 @@ def run(ctx):
     finally:
         atomic.VALIDATOR_RE = saved
         c12.VALIDATOR_RE = saved
+        _effects.USER_EXC.clear()
+        _effects.USER_EXC.update(saved_exc)
     check_entries(ctx)
 
 
